@@ -240,6 +240,33 @@ def r63(ctx):
         ctx.ob("R6.3", not bad, f"{nb.name}/restore-before-insert",
                "a restored ready channel is inserted into the channel map without restore_payments having run",
                where=f"{nb.file}:{cl}", sample="Channel literal -> restore_payments -> channels.insert")
+    # nothing overwrites the rebuilt ledger afterwards: after restore_payments has run (in new_from_persistence) and
+    # after new_from_persistence has returned (in restore_node) there is no insert / clear on NodeState.payments
+    def ledger_writes(body, fv):
+        out = []
+        for bi, c in body.calls():
+            nm = c.callee.name if c.callee else ""
+            last = nm.rsplit("::", 1)[-1]
+            if last in ("insert", "clear", "remove", "retain", "entry", "append", "extend") and c.args:
+                e = fv.expr(c.args[0])
+                if any(x[0] == "field" and x[3] == "payments" and x[2].endswith("NodeState") for x in subexprs(e)):
+                    out.append((bi, c.line, last))
+        return out
+    for body, after_pred, what in ((nb, lambda n: n == f"{CH}::restore_payments", "restore_payments"),
+                                   (p.fn(LS + "node::Node::restore_node"), lambda n: n == LS + "node::Node::new_from_persistence", "new_from_persistence")):
+        bv = fnview(ctx, body)
+        anchors_ = R.call_blocks(bv, after_pred)
+        ctx.ob("R6.3", len(anchors_) >= 1, f"{body.name}/calls-{what}", f"{body.name} no longer calls {what}", where=f"{body.file}:{body.line}")
+        lw = ledger_writes(body, bv)
+        for abi, aln, ac in anchors_:
+            reach = set()
+            for t in body.term(abi).targets[:1]:
+                reach = bv.reach(t)
+            late = [(ln, k) for bi, ln, k in lw if bi in reach]
+            ctx.ob("R6.3", not late, f"{body.name}/ledger-kept-after-{what}",
+                   f"`{body.name}` modifies NodeState.payments (line {late[0][0] if late else 0}, {late[0][1] if late else ''}) after {what} "
+                   f"rebuilt the in-flight amounts: the restored ledger is overwritten and an invoice can be overpaid after a restart",
+                   where=f"{body.file}:{late[0][0] if late else aln}", sample=f"no ledger write after {what}")
     rb = p.fn(f"{CH}::restore_payments")
     rv = fnview(ctx, rb).named()
     for nm, src, other in (("incoming_sat", "incoming_payment_summary", "outgoing_payment_summary"),
